@@ -28,8 +28,12 @@ TYPES = ["shortest", "fastest", "foremost", "shortest_fastest", "fastest_shortes
 TOL = 1e-9
 
 
-def build_graph(N, ids, pres, labs, perm=None, swap=False):
-    pairs = [(i, j) for i in range(N) for j in range(i + 1, N)]
+def all_pairs(N):
+    return [(i, j) for i in range(N) for j in range(i + 1, N)]
+
+
+def build_graph(N, ids, pres, labs, perm=None, swap=False, pairs=None):
+    pairs = pairs or all_pairs(N)
     g = dn.DynGraph()
     ren = (lambda x: x) if perm is None else (lambda x: perm[x])
     for n in range(N):
@@ -50,7 +54,7 @@ _g = build_graph(3, [0, 1, 2], [True] * 9, [True, False, True])
 al.delta_conformity(_g, 0, 2, [1.0], ['lab'])
 al.sliding_delta_conformity(_g, 1, [1.0], ['lab'])
 
-B12 = Tuple[bool, bool, bool, bool, bool, bool, bool, bool, bool, bool, bool, bool]
+B12 = Tuple[bool, bool, bool, bool, bool, bool, bool, bool, bool, bool, bool, bool, bool, bool, bool, bool]
 
 
 def T_conf(pres: B12, labs: B4) -> bool:
@@ -64,13 +68,14 @@ def close(a, b):
 def check_case(cfg, cp, cl):
     """Everything here is concrete and runs natively."""
     N, ids = cfg["N"], cfg["ids"]
-    g = build_graph(N, ids, cp, cl)
+    pairs = cfg.get("pairs") or all_pairs(N)
+    g = build_graph(N, ids, cp, cl, pairs=pairs)
     tids = g.temporal_snapshots_ids()
     if not tids:
         return True
     perm = {i: (i + 1) % N for i in range(N)}
-    g_perm = build_graph(N, ids, cp, cl, perm=perm)
-    g_swap = build_graph(N, ids, cp, cl, swap=True)
+    g_perm = build_graph(N, ids, cp, cl, perm=perm, pairs=pairs)
+    g_swap = build_graph(N, ids, cp, cl, swap=True, pairs=pairs)
     homog = len(set(cl[:N])) == 1
     for start in cfg["starts"]:
         for delta in cfg["deltas"]:
@@ -86,8 +91,7 @@ def check_case(cfg, cp, cl):
                 if sorted(res.keys()) != sorted("%.2f" % a for a in ALPHAS):
                     return False
                 present = sorted(n for n in range(N) if any(cp[k * len(ids) + ids.index(start)] for k, (u, v) in
-                                                            enumerate([(i, j) for i in range(N) for j in range(i + 1, N)])
-                                                            if n in (u, v))) if start in ids else []
+                                                            enumerate(pairs) if n in (u, v))) if start in ids else []
                 r_perm = al.delta_conformity(g_perm, start, delta, ALPHAS, ['lab'], path_type=pt)
                 r_swap = al.delta_conformity(g_swap, start, delta, ALPHAS, ['lab'], path_type=pt)
                 # nodes reaching another node within the window (brute force on the time-respecting paths of the slice)
@@ -136,7 +140,7 @@ def check_case(cfg, cp, cl):
 
 def body(cfg, pres, labs):
     N, ids = cfg["N"], cfg["ids"]
-    nb = N * (N - 1) // 2 * len(ids)
+    nb = len(cfg.get("pairs") or all_pairs(N)) * len(ids)
     cl = []
     for i in range(N):                                 # decide every bit under tracing ...
         fl = cfg.get("fixlabs") or []
@@ -145,7 +149,8 @@ def body(cfg, pres, labs):
             cl.append(fl[i])
         else:
             cl.append(sbool(labs[i]))
-    cp = [sbool(b) for b in list(pres)[:nb]]
+    pre = list(cfg.get("prefix") or [])
+    cp = pre + [sbool(b) for b in list(pres)[:nb - len(pre)]]
     if sum(cp) >= 4:
         reach("dense")
     if len(set(cl)) == 1:
@@ -172,3 +177,17 @@ for N, ids, tier in ((3, [0, 1, 2], "quick"), (3, [0, 1, 2, 3], "thorough"), (4,
                          "start, scores in [-1,1], invariant under swapping the two label values and under renaming node ids, equal to "
                          "1 (0) for nodes that reach another node (none) when all labels coincide; sliding_delta_conformity = per-"
                          "window delta_conformity stamped t+delta for every id t with t+delta < last id")
+
+
+# ---- a 4-node, 4-id universe restricted to a chain with one shortcut (0-1, 1-2, 2-3, 0-2), one common label: hop-distance
+# profiles with holes ({1,1,3}) only exist here.  16 partitions of the 16 presence bits.
+for _pi in range(16):
+    _prefix = [bool(_pi >> k & 1) for k in range(4)]
+    REG.add("conf_chain4_p%02d" % _pi, T_conf, body,
+            cfg=dict(N=4, ids=[0, 1, 2, 3], pairs=[(0, 1), (1, 2), (2, 3), (0, 2)], fixlabs=[True, True, True, True], prefix=_prefix,
+                     starts=[0], deltas=[3], types=TYPES, sliding_types=0),
+            tier="thorough", timeout=3000, tags=["dense", "homogeneous"], twins=1,
+            bounds="every DynGraph on 4 nodes over snapshot ids [0,1,2,3] whose interactions are among 0-1, 1-2, 2-3, 0-2 and whose "
+                   "first 4 presence bits are %s (partition %d of 16), all nodes share one label; start 0, delta 3, alphas %s, five "
+                   "path types" % (_prefix, _pi, ALPHAS),
+            what="as conf_*: in particular every node that reaches another node scores exactly 1 when all labels coincide")
